@@ -400,6 +400,24 @@ def run(ctx):
                 d0 = mk_def(2, "uint", [], t)
                 d0["objects"][0]["fields"][0]["doc"] = doc
                 items.append((d0, syn, ("empty", 2, 0)))
+    # two enums with the SAME name and the SAME variant list behind different cfgs (two revisions of a chip) on fields of
+    # different width or base type: each is analysed for the field it sits on (seed C15-9 memoised the analysis per
+    # (name, variants)); both orders, and the equal-field controls
+    def twin(wa, ba, wb, bb, values, t):
+        d = mk_def(wa, ba, values, t)
+        d2 = mk_def(wb, bb, values, t)
+        ra, rb = d["objects"][0], d2["objects"][0]
+        rb["name"], rb["address"] = "Rb", 4
+        ra["cfg"], rb["cfg"] = 'feature = "rev-a"', 'feature = "rev-b"'
+        d["objects"].append(rb)
+        return d
+    k = 0
+    for values, t in (([None, None, None, None], False), ([0, 5], True), ([None, None, None, None, "default"], False), ([0, 200], True),
+                      ([None, None], False), ([1, "catch_all"], False)):
+        for (wa, ba, wb, bb) in ((2, "uint", 3, "uint"), (3, "uint", 2, "uint"), (8, "uint", 8, "int"), (8, "int", 8, "uint"),
+                                 (3, "uint", 3, "uint"), (1, "uint", 2, "uint"), (2, "uint", 1, "uint")):
+            items.append((twin(wa, ba, wb, bb, values, t), ("dsl", "json", "yaml", "toml")[k % 4], ("twin", wa, wb)))
+            k += 1
     # the D16 / D17 witnesses and their accepted neighbours, always (all four syntaxes)
     for syn in ("dsl", "json", "yaml", "toml"):
         items.append((mk_def(8, "uint", [-1, "default"], False), syn, ("d16", 8, 2)))
